@@ -16,6 +16,9 @@ type multiCase struct {
 	DS   *DeclSet
 	Argv []string
 	Env  EnvState
+	// MidEnv: the environment from declaration number MidAt on (nil = it does not change while the program declares)
+	MidEnv *EnvState
+	MidAt  int
 	Cli  map[*Decl][]string
 	Spec string
 }
@@ -25,10 +28,60 @@ func (c *multiCase) Describe() interface{} {
 	for d, toks := range c.Cli {
 		given[d.Key()] = toks
 	}
-	return map[string]interface{}{"decls": describeDecls(c.DS), "spec": c.Spec, "argv": c.Argv, "env": c.Env.Describe(), "given_on_command_line": given}
+	m := map[string]interface{}{"decls": describeDecls(c.DS), "spec": c.Spec, "argv": c.Argv, "env": c.Env.Describe(), "given_on_command_line": given}
+	if c.MidEnv != nil {
+		m["env_from_declaration_number"] = c.MidAt
+		m["env_from_then_on"] = c.MidEnv.Describe()
+	}
+	return m
 }
 
 func genMulti(t *Tape) *multiCase { return genMultiOpt(t, false) }
+
+// genMultiMid: as genMulti; the environment may also change between two declarations of the application (only for
+// applications that run alone: the environment belongs to the whole process).
+func genMultiMid(t *Tape) *multiCase {
+	c := genMultiOpt(t, false)
+	decls := c.App.Root.Decls
+	if len(decls) < 2 || t.Draw(4) != 0 {
+		return c
+	}
+	mid := c.Env
+	at := 1 + t.Draw(len(decls)-1)
+	changed := false
+	for i := at; i < len(decls); i++ {
+		d := decls[i]
+		if d.Probe != nil {
+			continue
+		}
+		for _, k := range d.EnvVars {
+			if content, set := drawEnvContent(t, d.Kind, 2*t.Draw(2)); set {
+				mid.Set(k, content)
+			} else {
+				mid.Unset(k)
+			}
+			changed = true
+		}
+	}
+	if !changed {
+		return c
+	}
+	c.MidEnv, c.MidAt = &mid, at
+	c.App.Root.MidEnv, c.App.Root.MidAt = &mid, at
+	return c
+}
+
+// envOf: the environment the declaration d read (the one in force at its own moment).
+func (c *multiCase) envOf(d *Decl) EnvState {
+	if c.MidEnv != nil {
+		for i, x := range c.App.Root.Decls {
+			if x == d && i >= c.MidAt {
+				return *c.MidEnv
+			}
+		}
+	}
+	return c.Env
+}
 
 // genMultiOpt: with yieldProbe the application also declares a simulator-owned custom value, given once on the
 // command line, whose Set is a scheduling point (used by scheduled pairs).
@@ -303,6 +356,9 @@ func multiPairExec(g *genericPair, st *Stats, checkValues, skipDefaultLoss bool)
 func multiVerdict(c *multiCase, p *Proc, inst *Instance, st *Stats, checkValues, skipDefaultLoss bool) *Violation {
 	st.Evals++
 	st.Count("multi_container_cases")
+	if c.MidEnv != nil {
+		st.Count("fired.env_changed_between_two_declarations")
+	}
 	folded := false
 	for _, tok := range c.Argv[1:] {
 		if len(tok) > 2 && tok[0] == '-' && tok[1] != '-' && tok[2] != '=' {
@@ -336,10 +392,10 @@ func multiVerdict(c *multiCase, p *Proc, inst *Instance, st *Stats, checkValues,
 		for i, snap := range []map[string]VarSnap{inst.ActionSnap, final} {
 			where := []string{"inside the Action", "after Run"}[i]
 			if checkValues {
-				exp, _ := precedenceModel(d, toks, c.Env)
+				exp, _ := precedenceModel(d, toks, c.envOf(d))
 				if got := snap[key].Val; got != exp {
 					v := &Violation{Clause: "precedence", Detail: fmt.Sprintf("%s holds %s %s, the precedence rule gives %s (the command line gave it %q)", d.Key(), got, where, exp, toks), Expected: exp, Observed: got}
-					if kfC06_1(&contCase{Decl: d, Env: c.Env, CliToks: toks}, got, exp) {
+					if kfC06_1(&contCase{Decl: d, Env: c.envOf(d), CliToks: toks}, got, exp) {
 						if skipDefaultLoss {
 							st.Count("skipped.default_loss_is_C06s_subject")
 							continue
